@@ -56,7 +56,12 @@ func caseParse(s string) Case {
 }
 
 func caseGen(key string, vals []string) Case {
-	impl := guard(func() string { return X(valid.GenValidKV(key, vals...)) })
+	impl := guard(func() string {
+		if len(key)%2 == 0 {
+			return X(valid.JoinTag2Val(key, vals...)) // the deprecated alias
+		}
+		return X(valid.GenValidKV(key, vals...))
+	})
 	args := []string{X(key)}
 	for _, v := range vals {
 		args = append(args, X(v))
